@@ -72,6 +72,19 @@ CHECKS["C09"] = dict(
          "data-driven subclasses (Tsonis, Spearman, MutualInfo, ...) are covered under C10/C01, not here.",
     ref="6/C09")
 
+CHECKS["C03"] = dict(
+    technique="TLA+ definitions (Defs_Network) + TLC-enumerated graphs replayed on Network + TLC evaluation of every definition on the recorded adjacency (Val_C03)",
+    text="Gen_C03 enumerates every labelled undirected graph up to NU nodes, every directed graph up to ND nodes and structured families "
+         "(paths, cycles, stars, cliques, complete bipartite, disjoint unions, isolated nodes), each with unit and non-unit integer node "
+         "weights; ~55 measures per graph are recorded from Network and TLC evaluates their definitions (min-plus closure distances, "
+         "layered path counts, pairwise betweenness sums, subset-defined cores and cliques, n.s.i. sums) on the recorded adjacency, "
+         "rejecting the first measure that differs or raises where it is defined; seeded random graphs of 6..10 nodes are validated the "
+         "same way.",
+    note="Defined() withdraws the clause where the library only forwards an igraph convention (closeness/average path length on "
+         "disconnected or directed graphs); assortativity, eigenvector centrality, PageRank, random-walk betweenness and weighted "
+         "(link-attribute) variants have no definition yet and are covered by C01/C02/C04/C06 only.  Fixed point 10^-6, tolerance 4e-5.",
+    ref="6/C03")
+
 NOT_APPLICABLE = {
     "C20": "memory safety of compiled kernels is a property of concrete addresses, not of abstract state a TLA+ "
            "specification maintains; nothing binds a PlusCal transcription of index arithmetic to the compiled code "
